@@ -94,7 +94,7 @@ impl Run {
             samples: Vec::new(),
             printed_violations: 0,
             sig_counts: BTreeMap::new(),
-            hash_cap: 50_000,
+            hash_cap: if tier == Tier::Thorough { 400_000 } else { 50_000 },
         }
     }
 
